@@ -267,7 +267,7 @@ def cases(rng, tier):
     # the element-wise oracle of C02's extras stream, in C01's direction: a leaf value the BARE field rejects must not be
     # accepted at a nested position (oracle-only kinds: enums by value, date / datetime fields, bounded DecimalNumber ...)
     nh = S.nested_hook_cases(random.Random("nh" + str(rng.getstate()[1][0])), tier, 40 if tier == "quick" else 600)
-    return base + ext + tp + dec + dz + nh + nestedhook_cases() + X.directed_ctor_cases() + X.decimal_cases()
+    return base + ext + tp + dec + dz + nh + nestedhook_cases() + X.directed_ctor_cases() + X.decimal_cases() + X.floatstep_cases()
 
 
 def search_cases(rng, tier):
@@ -277,7 +277,11 @@ def search_cases(rng, tier):
 
 
 def _i(case):
-    return case.get("suite") in ("inherit", "nestedhook", "extras-ctor", "extras-decimal")
+    return case.get("suite") in ("inherit", "nestedhook", "extras-ctor", "extras-decimal", "extras-floatstep")
+
+
+def _fs(case):
+    return case.get("suite") == "extras-floatstep"
 
 
 def _xd(case):
@@ -293,6 +297,8 @@ def _nh(case):
 
 
 def run_impl(case):
+    if _fs(case):
+        return X.run_floatstep(case)
     if _xd(case):
         return X.run_decimal(case)
     if _xc(case):
@@ -307,6 +313,8 @@ def line(case, impl):
 
 
 def tags(case, impl, model):
+    if _fs(case):
+        return ["stream:extras-floatstep"]
     if _xd(case):
         return ["stream:extras-decimal"]
     if _xc(case):
@@ -327,6 +335,9 @@ def describe(case, impl, model):
 
 
 def judge(case, impl, model):
+    if _fs(case):
+        # C01's direction: a value that is not a multiple of the float step must not be stored; what is stored is the number given
+        return None, [f for f in X.judge_floatstep(case, impl) if f[0].startswith(("extras:floatstep:accepts-undocumented", "extras:floatstep:normal-form"))]
     if _xd(case):
         # C01's direction of the bound probes: a DecimalNumber beyond its bound must not be stored; what is stored equals the number given
         return None, ([] if "skip" in impl else [f for f in X.judge_decimal_ctor(case, impl)
